@@ -26,7 +26,7 @@ contract(
             invariant=["forall(0, _i_warning_type, lambda k: not Sup(type, subtype, _seq_warning_type[k]))"],
         )
     },
-    properties=["C14"],
+    properties=["C14", "C01"],
 )
 
 
@@ -106,7 +106,7 @@ contract(
     types={"document": "Document", "subtype": "str", "node": "None", "append_to": "Element | None", "line": "int | None", "kwargs": "dict[str, int | None]"},
     raises={},
     modifies=["Element.children", "Element.parent", "fresh"],
-    properties=["C14"],
+    properties=["C14", "C01"],
 )
 
 
@@ -131,5 +131,5 @@ contract(
     types={"subtype": "str", "append_to": "Element | None", "line": "int | None"},
     raises={},
     modifies=["Element.children", "Element.parent", "fresh"],
-    properties=["C14"],
+    properties=["C14", "C01"],
 )
